@@ -144,7 +144,9 @@ def itChunksO {α : Type} (n : Nat) (l : List α) : Outcome (List (List α)) :=
 /-- `run_newline_json(query_file, chunksize_option, app, run_config)` on an opened file.  An unreadable file is
 an endless sequence of chunks without a single query: the first `run` of the empty batch either fails (the call
 ends) or the loop never ends (for a chunk size the machine can collect; with a huge one the first chunk is
-never complete — `diverges` as well). -/
+never complete — `diverges` as well; this arm answers `Err(run)` there when the run of the empty batch fails,
+which the code never reaches: inexact, and dead — `commandLineRunnerO` refuses an unreadable file before the
+dispatch since fix 08a69e9, and no theorem speaks about this arm with a failing run). -/
 def runNewlineJsonO {ε ρ : Type} (run : List Json → Outcome (Except ε ρ)) (chunksize : Option Nat) :
     QueryFile → Outcome (CliOut ε ρ)
   | .missing => .ok { log := [], result := .error .queryFileMissing }
